@@ -5,6 +5,9 @@ CONSTANTS
   Thr = 2
   Tol = 2
   Fresh = TRUE
+  Slow = FALSE
+  QCap = 1000
+  Bursts <- JNone
   Credits <- JNone
   Pays <- JNone
   Reserves <- JNone
